@@ -1,5 +1,6 @@
 import Driver.Proto
 import PolyVerif.Model.Stl
+import PolyVerif.Gen.StlNormals
 
 /-!
   Driver for C07 (binary STL).  Line protocol:
@@ -89,22 +90,16 @@ theorem quiet_nanCanon32 (w : W32) : quiet (nanCanon32 w) = nanCanon32 w := by
   · rw [if_pos h]; decide
   · rw [if_neg h]; simp [quiet, h]
 
-def normalized (x y z : Float) : P3 UInt64 :=
-  let len := Float.sqrt (x * x + y * y + z * z)
-  ⟨canon (x / len), canon (y / len), canon (z / len)⟩
+def vOfBits (a : P3 UInt64) : V3 Float := ⟨fl a.x, fl a.y, fl a.z⟩
+def bitsOfV (v : V3 Float) : P3 UInt64 := ⟨canon v.x, canon v.y, canon v.z⟩
 
+/-- the two normal functions are the expressions REGENERATED from write.go / read.go (Gen/StlNormals.lean),
+    executed at `Float` (IEEE double, Go's operation order); `q32` / `up` are Lean's float conversions -/
 def P : Params UInt64 where
   q32 b := nanCanon32 (BitVec.ofNat 32 (fl b).toFloat32.toBits.toNat)
   up w := canon (Float32.ofBits (UInt32.ofNat w.toNat)).toFloat
-  avgNormal a b c :=
-    let x := (fl a.x + fl b.x + fl c.x) / 3.0
-    let y := (fl a.y + fl b.y + fl c.y) / 3.0
-    let z := (fl a.z + fl b.z + fl c.z) / 3.0
-    normalized x y z
-  flatNormal v1 v2 v3 :=
-    let ax := fl v2.x - fl v1.x; let ay := fl v2.y - fl v1.y; let az := fl v2.z - fl v1.z
-    let bx := fl v3.x - fl v1.x; let by' := fl v3.y - fl v1.y; let bz := fl v3.z - fl v1.z
-    normalized (ay * bz - az * by') (az * bx - ax * bz) (ax * by' - ay * bx)
+  avgNormal a b c := bitsOfV (Gen.StlNormals.avgNormal (vOfBits a) (vOfBits b) (vOfBits c))
+  flatNormal v1 v2 v3 := bitsOfV (Gen.StlNormals.flatNormal (vOfBits v1) (vOfBits v2) (vOfBits v3))
 
 def u64? (s : String) : Option UInt64 :=
   if s.length ≠ 16 then none else (parseHex s).map (fun n => canon (Float.ofBits n.toUInt64))
